@@ -280,7 +280,7 @@ def struct_graph(rng):
         ms = []
         for j in range(rng.randint(1, 3)):
             t = rng.randrange(n)
-            form = rng.choice(["val", "val", "ptr", "arr", "const", "int", "bits", "anon"])
+            form = rng.choice(["val", "val", "ptr", "arr", "const", "int", "bits", "anon", "tagbits", "qanon"])
             nm = "m%d" % j
             if form == "val":
                 ms.append("%s %s %s;" % (kw[t], tags[t], nm))
@@ -292,6 +292,10 @@ def struct_graph(rng):
                 ms.append("const %s %s %s;" % (kw[t], tags[t], nm))
             elif form == "bits":
                 ms.append("int %s : 3, : 2;" % nm)
+            elif form == "tagbits":
+                ms.append("%s %s *%s, : 2;" % (kw[t], tags[t], nm))           # an unnamed bit-field that shares a tag type with a named declarator
+            elif form == "qanon":
+                ms.append("const %s { int c%d; };" % (rng.choice(["struct", "union"]), j))
             elif form == "anon":
                 ms.append("%s { int a%d; %s %s *p%d; };" % (rng.choice(["struct", "union"]), j, kw[t], tags[t], j))
             else:
@@ -305,7 +309,7 @@ def struct_graph(rng):
         i, j = rng.choice(objs), rng.choice(objs)
         body.append(rng.choice(["x%d = y%d;" % (i, j), "x%d = *q%d;" % (i, j), "q%d = &x%d;" % (i, j), "x%d.m0 = y%d.m0;" % (i, j), "q%d->m1 = x%d.m0;" % (i, j),
                                 "g(x%d, q%d);" % (i, j), "x%d == y%d;" % (i, j), "x%d.m0.m0.m0 = 1;" % i, "(void)sizeof(x%d);" % i, "x%d = (%s %s){ 0 };" % (i, kw[i], tags[i]),
-                                "x%d.a0 = q%d->p0->a0;" % (i, j)]))
+                                "x%d.a0 = q%d->p0->a0;" % (i, j), "x%d.zz = 1;" % i, "q%d->nope;" % j, "x%d.c0 + x%d.m0.zz;" % (i, j)]))
     out.append("void g(%s %s a, %s %s *b);" % (kw[0], tags[0], kw[-1], tags[-1]))
     out.append("void f(void) { %s }" % " ".join(body))
     return "\n".join(out) + "\n"
